@@ -87,6 +87,51 @@ def run_c04(tier, seed):
     return _finish(v, work, counters, distinct, samples, stats,
                    "sequences of 2-5 generated messages (bodyless / Content-Length / chunked, well-formed or near-well-formed, bodies sometimes beyond the parser limit so that the predecessor is abandoned mid-body by 413) on ONE parser in random segmentation, each compared with the same message and segmentation on a fresh parser. distinct = (parser kind, how the predecessor ended, successor shape, outcome)")
 
+def _fuzz_stage(v, seed, work):
+    """Coverage-guided stage (clang 14 libFuzzer + ASan + UBSan).  float-cast-overflow is disabled and signed-integer-overflow
+    is non-fatal in this build because of the recorded finding in the vendored date parser (libFuzzer stops at the first
+    fatal report); both kinds stay covered by the gcc sanitizer passes."""
+    import glob, re, subprocess
+    fbin = vlib.build_harness("fuzz_parser", "fuzz", extra=["-fsanitize=fuzzer,address,undefined"], opt="-O1")
+    corpus = os.path.join(work, "corpus"); os.makedirs(corpus, exist_ok=True)
+    seeds = [b"\x00\x01GET /a?b=c&d HTTP/1.1\r\nHost: x\r\nCookie: a=b; c=d\r\nContent-Length: 3\r\n\r\nabc",
+             b"\x00\x02POST /p HTTP/1.1\r\nTransfer-Encoding: chunked\r\n\r\n3\r\nabc\r\n0\r\n\r\n",
+             b"\x01\x00HTTP/1.1 200 OK\r\nSet-Cookie: a=b; Path=/; Max-Age=5\r\nContent-Length: 2\r\n\r\nok",
+             b"\x03\x00a=b; Path=/; Domain=x.y; Max-Age=5; Secure; HttpOnly; Scope=z",
+             b"\x04\x00a=b; c=d; e=", b"\x05\x00application/vnd.api+json; q=0.75; charset=utf-8",
+             b"\x06\x00[::ffff:1.2.3.4]:8080", b"\x06\x01" + b"65535", b"\x07\x00QWxhZGRpbjpvcGVuIHNlc2FtZQ=="]
+    for k in range(19):
+        seeds.append(bytes([2, k]) + b"max-age=12, public")
+    for i, sd in enumerate(seeds):
+        open(os.path.join(corpus, "seed%d" % i), "wb").write(sd)
+    runs = 300000
+    procs = []
+    for j in range(vlib.NCPU):
+        cd = os.path.join(work, "fz%d" % j); os.makedirs(cd, exist_ok=True)
+        cmd = [fbin, "-runs=%d" % runs, "-max_len=2048", "-seed=%d" % (seed * 100 + j), "-artifact_prefix=%s/" % cd, "-print_final_stats=1", corpus]
+        procs.append((cd, subprocess.Popen(cmd, stdout=subprocess.PIPE, stderr=subprocess.STDOUT, cwd=cd,
+                                           env=dict(os.environ, ASAN_OPTIONS="detect_leaks=0:quarantine_size_mb=8", UBSAN_OPTIONS="print_stacktrace=1"))))
+    total, crashes, cov = 0, 0, 0
+    for cd, p in procs:
+        try:
+            out, _ = p.communicate(timeout=3000)
+        except subprocess.TimeoutExpired:
+            p.kill(); out, _ = p.communicate()
+            v.add_inconclusive("libFuzzer job hit the wall-clock watchdog")
+        txt = out.decode("utf-8", "replace")
+        m = re.search(r"stat::number_of_executed_units:\s*(\d+)", txt)
+        total += int(m.group(1)) if m else 0
+        for mm in re.finditer(r"cov: (\d+)", txt):
+            cov = max(cov, int(mm.group(1)))
+        for rep in vlib.parse_sanitizer_text(txt):
+            v.violation(vlib.san_key(rep), "libFuzzer: %s %s in %s" % (rep["tool"], rep["kind"], rep["func"]), dict(stack=rep["stack"], report=rep["text"][:2500]))
+        for art in glob.glob(os.path.join(cd, "crash-*")) + glob.glob(os.path.join(cd, "timeout-*")) + glob.glob(os.path.join(cd, "oom-*")):
+            crashes += 1
+            data = open(art, "rb").read()
+            if not vlib.parse_sanitizer_text(txt):
+                v.violation("fuzz:%s:entry%d" % (os.path.basename(art).split("-")[0], data[0] % 8 if data else 0), "libFuzzer artifact without a parsed sanitizer report", dict(hex=data[:600].hex(), tail=txt[-1500:]))
+    return dict(executions=total, artifacts=crashes, max_edge_coverage=cov, jobs=len(procs))
+
 def run_c03(tier, seed):
     v = vlib.Verdict("C03", tier, seed, level="exploration")
     work = vlib.scratch_dir("C03")
@@ -109,6 +154,8 @@ def run_c03(tier, seed):
     distinct |= d3
     counters["evaluations"] = counters.get("evaluations", 0) + c3.get("evaluations", 0)
     stats["server_level"] = dict(hostile_inputs=int(c3.get("evaluations", 0)), monitor_counts=c3.get("counts", {}), **st3)
+    if tier == "thorough":
+        stats["libfuzzer"] = _fuzz_stage(v, seed, work)
     v.assumptions += ["memory bound judged per parser: largest single request <= 2*limit+1KiB, peak live <= 4*limit+8KiB (plain flavour, replaced operator new)",
                       "server level: 1-worker ASan endpoint, hostile bytes in random TCP segments on one connection, a keep-alive probe on another connection must be answered after every input (5 s x load bound, confirmed on a fresh connection)"]
     return _finish(v, work, counters, distinct, samples, stats,
